@@ -327,8 +327,8 @@ pub fn run(ctx: &Ctx) -> Report {
     );
     rep.assume("'arbitrary attribute values and arbitrary text free of CR and NUL' is read as: both are free of CR and NUL (the HTML syntax cannot represent a CR in an attribute value: the input stream normalises it)");
     rep.assume("void elements are exempt from inner==outer (they have no end tag)");
-    report_known(ctx, &mut rep, &|v| replay(ctx, v));
-    run_regressions(ctx, &mut rep, &|v| replay(ctx, v));
+    report_known(ctx, &mut rep, &|v| replay(&ctx.strict_clone(), v));
+    run_regressions(ctx, &mut rep, &|v| replay(&ctx.strict_clone(), v));
     let out = run_random(ctx.seed, ctx.tier.pick(150_000, 6_000_000), 1500, decode, check);
     rep.absorb(out);
     for l in [
